@@ -48,8 +48,15 @@ def _get_uses_of(node: ast.AST, scope: ast.AST, source: str) -> Iterable[ast.Nam
             continue
         if any(core.walk(funcdef.args, ast.arg(arg=name))):
             blacklisted_names.update(core.walk(funcdef, ast.Name))
-        for child in core.walk(funcdef, ast.Name(ctx=ast.Store, id=name)):
-            blacklisted_names.update(core.walk(child, ast.Name))
+        # A function that binds the name itself, by assignment or import, means its own variable
+        # wherever it uses the name, unless it declares it global or nonlocal.
+        if any(name in child.names for child in core.walk(funcdef, (ast.Global, ast.Nonlocal))):
+            continue
+        if any(core.walk(funcdef, ast.Name(ctx=ast.Store, id=name))) or any(
+            (alias.asname or alias.name).split(".")[0] == name
+            for alias in core.walk(funcdef, ast.alias)
+        ):
+            blacklisted_names.update(core.walk(funcdef, ast.Name))
 
     augass_candidates = {
         target
